@@ -355,6 +355,135 @@ def _logspace(p):
     return res, n
 
 
+def _moment_findings(p):
+    """NUM-MOMENT: a variance assembled from raw moments, mean(x**2) - mean(x)**2, loses
+    cond**2 digits (the property allows cond): for data with |mean| / std ~ 100 it has no correct
+    digit in float32 and can go negative.  Decided per subtraction, single-assignment locals
+    resolved: minuend a mean / sum of a square of X, subtrahend the square of a mean / sum of
+    the same X."""
+    import ast
+
+    from ..astutil import const_number
+
+    res = RuleResult("NUM-MOMENT", "no variance / spread is assembled from raw moments (mean(x**2) - mean(x)**2): the centred two-pass form (x.var(), ((x - mean)**2).mean()) is used")
+    n = 0
+
+    def last_and_recv(c):
+        f = c.func
+        if isinstance(f, ast.Attribute):
+            is_mod = isinstance(f.value, ast.Name) and f.value.id in ("torch", "F", "np")
+            return f.attr, ((c.args[0] if c.args else None) if is_mod else f.value)
+        return "", None
+
+    def square_of(e):
+        if isinstance(e, ast.BinOp) and isinstance(e.op, ast.Pow) and const_number(e.right) == 2:
+            return e.left
+        if isinstance(e, ast.BinOp) and isinstance(e.op, ast.Mult) and norm_text(e.left) == norm_text(e.right):
+            return e.left
+        if isinstance(e, ast.Call):
+            last, recv = last_and_recv(e)
+            if last == "square" and recv is not None:
+                return recv
+            if last == "pow" and recv is not None:
+                k = e.args[-1] if e.args else None
+                if k is not None and const_number(k) == 2:
+                    return recv
+        return None
+
+    for mi in p.modules.values():
+        if not (mi.name.startswith("nflows.transforms") or mi.name.startswith("nflows.distributions") or mi.name.startswith("nflows.nn") or mi.name == "nflows.utils.torchutils"):
+            continue
+        for fn in ast.walk(mi.tree):
+            if not isinstance(fn, ast.FunctionDef):
+                continue
+            defs = {}
+            for st in ast.walk(fn):
+                if isinstance(st, ast.Assign) and len(st.targets) == 1:
+                    t = st.targets[0]
+                    if isinstance(t, ast.Name):
+                        defs.setdefault(t.id, []).append(st.value)
+                    elif isinstance(t, ast.Tuple) and isinstance(st.value, ast.Tuple) and len(t.elts) == len(st.value.elts):
+                        for a, b in zip(t.elts, st.value.elts):
+                            if isinstance(a, ast.Name):
+                                defs.setdefault(a.id, []).append(b)
+
+            def nearest_def(name_node):
+                """the closest preceding assignment of the name in the statement list that holds its use"""
+                st = name_node
+                while st is not None and not isinstance(st, ast.stmt):
+                    st = getattr(st, "_parent", None)
+                while st is not None and st is not fn:
+                    par = getattr(st, "_parent", None)
+                    for field in ("body", "orelse", "finalbody"):
+                        block = getattr(par, field, None)
+                        if isinstance(block, list) and st in block:
+                            for prev in reversed(block[: block.index(st)]):
+                                if isinstance(prev, ast.Assign) and len(prev.targets) == 1:
+                                    t = prev.targets[0]
+                                    if isinstance(t, ast.Name) and t.id == name_node.id:
+                                        return prev.value
+                                    if isinstance(t, ast.Tuple) and isinstance(prev.value, ast.Tuple) and len(t.elts) == len(prev.value.elts):
+                                        for a, b in zip(t.elts, prev.value.elts):
+                                            if isinstance(a, ast.Name) and a.id == name_node.id:
+                                                return b
+                    st = par
+                return None
+
+            def res_name(e, depth=0):
+                while isinstance(e, ast.Name) and depth < 6:
+                    d = nearest_def(e) if hasattr(e, "_parent") else None
+                    if d is None and len(defs.get(e.id, [])) == 1:
+                        d = defs[e.id][0]
+                    if d is None:
+                        break
+                    e = d
+                    depth += 1
+                return e
+
+            def moment(e):
+                """(order, text of X) when e is mean/sum(X) [order 1] or mean/sum(X**2) [order 2]"""
+                e = res_name(e)
+                if isinstance(e, ast.Call):
+                    last, recv = last_and_recv(e)
+                    if last in ("mean", "sum") and recv is not None:
+                        recv = res_name(recv)
+                        sq = square_of(recv)
+                        if sq is not None:
+                            return 2, norm_text(res_name(sq))
+                        return 1, norm_text(recv)
+                return None
+
+            for node in ast.walk(fn):
+                if not (isinstance(node, ast.BinOp) and isinstance(node.op, ast.Sub)):
+                    continue
+                n += 1
+                lm = moment(node.left)
+                r = res_name(node.right)
+                rsq = square_of(r)
+                rm = moment(rsq) if rsq is not None else None
+                if lm is not None and rm is not None and lm[0] == 2 and rm[0] == 1 and lm[1] == rm[1]:
+                    qual = fn.name
+                    par = getattr(fn, "_parent", None)
+                    while par is not None:
+                        if isinstance(par, (ast.ClassDef, ast.FunctionDef)):
+                            qual = par.name + "." + qual
+                        par = getattr(par, "_parent", None)
+                    res.fail(Finding("NUM-MOMENT", mi, qual, node, "the spread of `%s` is computed as mean(x**2) - mean(x)**2: the relative error is eps * (mean/std)**2 -- for |mean|/std around 100 no digit is correct in float32 and the result can be negative (NaN after sqrt / log)" % lm[1][:40]))
+    return res, n
+
+
+def moment_rule(ctx):
+    res, n = _moment_findings(ctx.p)
+    if n < 100:
+        raise AnalysisIncomplete("NUM-MOMENT: %d subtractions examined (< 100)" % n)
+    res.ok("%d subtractions examined, none a raw-moment variance" % n)
+    return res
+
+
+def moment_findings(p):
+    return _moment_findings(p)[0].findings
+
+
 def c19_rules(ctx):
     out = _results(ctx, ("transform", "distribution", "spline"), "DT-MIX", "DT-RESULT", SINKS)
     if len(out[1].instances) < 100:
@@ -371,8 +500,10 @@ def c20_dtype(ctx):
 
 register(
     "C19",
-    [c19_rules, logspace_rule],
-    "NUM-LOGSPACE: every tensor log call in transforms / distributions / flows / torchutils is examined; its argument, with "
+    [c19_rules, logspace_rule, moment_rule],
+    "NUM-MOMENT: every subtraction is examined (single-assignment locals resolved): a mean / sum of a square of X minus the "
+    "square of a mean / sum of the same X is a variance from raw moments, whose float32 error scales with the square of the "
+    "conditioning (the property allows the first power) and which can turn negative. NUM-LOGSPACE: every tensor log call in transforms / distributions / flows / torchutils is examined; its argument, with "
     "single-assignment locals resolved and abs / clamp / +eps peeled, must not be a prod / cumprod / det reduction (a log-det "
     "or log-density must be a sum of logs: the product of 50 factors of 0.1 is 0.0 in float32) -- a structural necessary "
     "condition of the 'stays finite' clause. Dtype-provenance abstract interpretation over forward/inverse of every Transform, log_prob of every Distribution and the "
